@@ -81,6 +81,10 @@ def judge(ctx, cases):
         src = case.get("src", "?")
         if case["b"][:1] == [239] and case["b"][1:3] != [187, 191]:
             src = "0xEF-not-BOM"       # the statement leaves this input class open for the JSON front-ends; SEN reads it as a token
+        elif b.get("sv"):
+            # the input is a valid strict JSON text (decided by JsonText in the trace spec): the systemic SEN defects (bare
+            # tokens / pending + at a buffer end) do not apply, so a disagreement here is outside the known patterns
+            src = "valid-json:" + src
         for api, loc in deviations(b, case.get("pad", 0) + len(case["b"]) > 4096):
             loc = loc[:-1] + "," + src + ")"
             recs.append({"api": api, "kind": b["kind"], "locus": loc, "witness": wit, "case": case,
